@@ -41,7 +41,9 @@ func tagSSIParser(doc *Parser, start *Token, arguments *Parser) (INodeTag, *Erro
 			SSINode.template = temporaryTpl
 		} else {
 			// plaintext (loaded through the template set's loaders, like any other template)
-			_, _, fd, err := doc.template.set.resolveTemplate(doc.template, fileToken.Val)
+			// (the name is resolved relative to this template first, like for include and
+			// ssi parsed, and then looked up by the loaders)
+			_, _, fd, err := doc.template.set.resolveTemplate(nil, doc.template.set.resolveFilename(doc.template, fileToken.Val))
 			var buf []byte
 			if err == nil {
 				buf, err = io.ReadAll(fd)
